@@ -11,8 +11,9 @@ Idle ops (answer: `<ret> | <dump>` or `disabled`):
 `runres e1 e2` answers the result class of `cleanRunner.Run`.
 BuildDirs ops (answer: `<token> | <dump>` or `disabled`):
   `dbegin t <name|->` `dname t` `dmkdir t f` `denter t f` `drmdir t f` `dwrite t file`
-  `dcc t e1` `dra t f` `dfin t relErr` `dclean ok|err`
-`reset`, `dump`.
+  `dcc t e1` `dra t f` `drel t` `dfin t relErr` `dclean ok|err`
+`reset`, `dump`, `idump`, `ddump`; `isave` / `irestore` snapshot and restore the Idle state (the
+harness looks for an order of the wake-ups of one segment that explains what it observed).
 -/
 namespace BbRe.Drivers.Idle
 open BbRe.Drivers
@@ -21,8 +22,9 @@ structure St where
   idle : BbRe.Idle.State
   dirs : BbRe.BuildDirs.State
   seen : List Nat
+  saved : BbRe.Idle.State   -- `isave` / `irestore`: the harness may try several orders of one segment
 
-def init : St := ⟨BbRe.Idle.init, BbRe.BuildDirs.init, []⟩
+def init : St := ⟨BbRe.Idle.init, BbRe.BuildDirs.init, [], BbRe.Idle.init⟩
 
 def insertSorted (t : Nat) : List Nat → List Nat
   | [] => [t]
@@ -42,7 +44,7 @@ def idleDump (s : St) : String :=
 def dpcTok : BbRe.BuildDirs.DPC → String
   | .idle => "idle" | .acquired _ => "acquired" | .named n => s!"named:{n}" | .made n => s!"made:{n}"
   | .enterFailed n => s!"efail:{n}" | .holding n => s!"hold:{n}" | .closing n _ => s!"closing:{n}"
-  | .finishing _ _ => "fin"
+  | .finishing _ _ => "fin" | .releasing _ _ => "rel"
 
 def dresTok : BbRe.BuildDirs.Res → String
   | .ok => "ok" | .internal => "internal" | .childErr => "childErr" | .cleanErr => "cleanErr"
@@ -85,6 +87,10 @@ def step (s : St) (ws : List String) : St × String :=
   match ws with
   | ["reset"] => (init, "ok")
   | ["dump"] => (s, s!"{idleDump s} | {dirsDump s}")
+  | ["idump"] => (s, idleDump s)
+  | ["ddump"] => (s, dirsDump s)
+  | ["isave"] => ({ s with saved := s.idle }, "ok")
+  | ["irestore"] => ({ s with idle := s.saved }, "ok")
   | ["acq", t] => match t.toNat? with
     | some t => idleStep s t (.acquireEnter t) | none => (s, "bad-op")
   | ["wake", t] => match t.toNat? with
@@ -133,10 +139,13 @@ def step (s : St) (ws : List String) : St × String :=
         | .closing n _ => if f then "fault" else if hasName d'.root n then "present" else "removed"
         | _ => "?")
     | _, _ => (s, "bad-op")
+  | ["drel", t] => match t.toNat? with
+    | some t => dirStep s (some t) (.release t) (fun _ _ => "ok")
+    | none => (s, "bad-op")
   | ["dfin", t, e] => match t.toNat?, flag? e with
     | some t, some e => dirStep s (some t) (.finish t e) (fun d _ =>
         match d.pc t with
-        | .finishing g r => s!"ret {dresTok (finishResult g r e)}"
+        | .releasing g r => s!"ret {dresTok (finishResult g r e)}"
         | _ => "?")
     | _, _ => (s, "bad-op")
   | ["dclean", ok] => match boolTok? ok with
